@@ -210,6 +210,10 @@ func ppProtCase(w *bufio.Writer, r *u.Rng, dist map[string]int, caseNo int, long
 			}
 			fmt.Fprintf(w, "CASE %d %s\n", nt, u.App("UnprotCase", ppB(long), u.Z(int64(hdrLen)), u.Z(largest), u.Hex(data[:pktLen]), sample, m, call, ores, u.Z(int64(cls)), rs))
 			dist[fmt.Sprintf("unprot-class%d", cls)]++
+			// the largest authenticated packet number (the decode reference) only moves on a successful open, to the max
+			if want := max(largest, l2.OpenPN); l2.OpenOK && e.largest() != want || !l2.OpenOK && e.largest() != largest {
+				fmt.Fprintf(w, "MONFAIL\tprotect/highest-rcvd\topener's highest received packet number went from %d to %d (open ok=%v, pn %d)\t%s\n", largest, e.largest(), l2.OpenOK, l2.OpenPN, ctx)
+			}
 			if tam == "" {
 				// ---- round trip monitor ----
 				hwin := int64(1) << (8*uint(pnLen) - 1)
